@@ -22,6 +22,12 @@ CLAIMED = {
     "C16": ("One reader model parametrised by the symbol conversion mirrors the five hand-copied scanner loops; proved for all inputs: the reader never panics (and terminates, being a Gallina function) on any byte stream; any layout of a set of records (any chunking into lines incl. blank lines, LF or CRLF per line, optional final newline) reads back exactly those records in order (file-level theorem through a byte-level model of bufio.ScanLines); letter case never matters; the plain reader agrees with the encoding readers; the encoding readers are the validity-only reader followed by encoding (strictness); score and A/C/G/T counts are those of the sequence. Differential run of all five readers on valid re-layouts and a malformed stream, plus a generator-side oracle for the plain reader.",
             "Coq proof (simulation/invariant over the line fold, induction over layouts, table sweeps) + correspondence check",
             "UTF-8 white space in headers and the 1 MiB token limit are outside the model.", "5 C16"),
+    "C06": ("The shared theorem online_topk_eq_sorted_prefix (the Go admission rule: append below capacity, stable sort + truncate at capacity, admit iff strictly better than the last) is instantiated with the key (distance ascending, completeness descending) after showing that the float comparisons of non-NaN keys form a strict weak order (via a lexicographic code of SpecFloat values); consequences proved for any number of targets: find_closest_n = first K within D of the stable sort, plain closest = -n 1, an undefined (+Inf) distance never displaces a defined one, and both whole commands equal their spec commands on every input. Differential run of closest.Closest/ClosestN on tie-rich inputs against model and spec (bytes).",
+            "Coq proof (invariant over the online catchment fold, strict-weak-order instantiation over SpecFloat) + correspondence check",
+            "tn93 keys are taken from the implementation (float bits through the verif export); C07 decides their value.", "5 C06"),
+    "C07": ("snp and raw counts are proved equal to the column counts of the statement for every pair of valid sequences (from the finite table sweeps), with symmetry, n<=d, and zero on identical unambiguous sequences; the tn93 column classes (differences, purine/pyrimidine transitions, compared sites) are proved to be the named ones; eq. (7) is written over R (TN93Spec.v, zero on identical proved). raw is modelled bit-exactly (SpecFloat division, exact 'f',9 formatting). Correspondence: complete 32x32 symbol grid + random pairs through closest --table (bytes) and the float values of the three Go distance functions (bit-exact vs spec for raw/snp; per-pair kernel-checked interval enclosure at 1e-12 for tn93).",
+            "Coq proof (induction over columns + table sweeps; SpecFloat model) + correspondence check; tn93 value: certified interval enclosure per sampled pair (partial)",
+            "PARTIAL for tn93: the float evaluation of eq. (7) (math.Log, rounding) is not modelled; sampled pairs are certified individually with coq-interval, which depends on the standard library's real-number axioms (ClassicalDedekindReals.sig_forall_dec, sig_not_dec, functional_extensionality_dep, Classical_Prop.classic).", "5 C07"),
     "C03": ("For every pair of byte files the Coq model of `snps` (reader over the dumped encoding tables, bitwise "
             "test, decoder, row printer) is proved equal to the specification command built from the IUPAC meaning "
             "of the symbols (C03_command_eq_spec), with soundness, completeness, ascending order and "
